@@ -18,6 +18,7 @@ import (
 	"reflect"
 	"regexp"
 	"sort"
+	"strconv"
 	"strings"
 	"sync"
 	"time"
@@ -124,12 +125,23 @@ func dateTable(text string) (rows []dateRow, unstable bool) {
 			continue
 		}
 		v := tm.UnixNano()
-		rows = append(rows, dateRow{lit: t.Value, ok: true, val: v, rendered: time.Unix(0, v).String()})
+		rows = append(rows, dateRow{lit: t.Value, ok: true, val: v, rendered: renderInstant(v)})
 		if !stableDate.MatchString(t.Value) {
 			unstable = true
 		}
 	}
 	return
+}
+
+// dateLayout: how DateTime.String() renders an instant, as the extractor read it from /repo ("" = time.Time.String())
+var dateLayout = ""
+
+// renderInstant is the model printer's date input: Go's own formatting of the instant with the regenerated layout
+func renderInstant(v int64) string {
+	if dateLayout == "" {
+		return time.Unix(0, v).String()
+	}
+	return time.Unix(0, v).Format(dateLayout)
 }
 
 func stmtLine(text string, rows []dateRow) string {
@@ -188,6 +200,7 @@ func parBatch(lines []string) []string {
 // model answers
 
 type modelStmt struct {
+	td      string // TRUNCATE through the direct parser: na | same[<wf><lexable>] | diff:...
 	ok      bool
 	canon   string
 	printed string
@@ -196,13 +209,16 @@ type modelStmt struct {
 
 func parseModelStmt(a string) modelStmt {
 	if !strings.HasPrefix(a, "ok ") {
+		if i := strings.LastIndex(a, " | "); i >= 0 {
+			return modelStmt{td: a[i+3:]}
+		}
 		return modelStmt{}
 	}
 	parts := strings.Split(a[3:], " | ")
-	if len(parts) != 3 {
+	if len(parts) != 4 {
 		return modelStmt{}
 	}
-	m := modelStmt{ok: true, canon: parts[0], printed: string(vh.UnHx(parts[1])), classes: map[string]bool{}}
+	m := modelStmt{td: parts[3], ok: true, canon: parts[0], printed: string(vh.UnHx(parts[1])), classes: map[string]bool{}}
 	if parts[2] != "-" {
 		for _, c := range strings.Split(parts[2], ",") {
 			m.classes[c] = true
@@ -481,8 +497,16 @@ func judgeRT(section string, c rtCase, im rtImpl, a1, a2 string) string {
 	if !eq {
 		res.Mismatch(vh.Mismatch{Section: section, Function: "lql.ParseLql (lexer + participle engine on the regenerated grammar + captures)", Input: c, Impl: implS, Model: modelS})
 	}
+	if eq && strings.HasPrefix(m1.td, "diff") {
+		eq = false
+		res.Mismatch(vh.Mismatch{Section: section, Function: "lql.ParseLql on a TRUNCATE statement vs the direct parser (Logrange.Lql.directTruncate)", Input: c, Impl: implS, Model: m1.td})
+	}
 	if !im.accepted {
 		return "rejected"
+	}
+	if eq && strings.HasPrefix(m1.td, "same") && len(m1.td) == 6 && len(m1.classes) == 0 && !im.unstable && m1.td != "same11" {
+		// the decidable hypotheses of token_roundtrip_truncate / print_parse_truncate_partial on the parser's image
+		res.Mismatch(vh.Mismatch{Section: section, Function: "hypotheses of print_parse_truncate_partial on the parser's image (wf, lexable)", Input: c, Impl: "same11", Model: m1.td})
 	}
 	if eq && !im.unstable && im.printed != m1.printed {
 		eq = false
@@ -797,6 +821,71 @@ func sectionRoundtrip(rng *vh.Rng) {
 }
 
 // ---------------------------------------------------------------------------------------------
+// the date contract the TRUNCATE / RANGE theorems take as a hypothesis: parseLqlDateTime reads the text DateTime.String()
+// prints for an instant back to that instant
+
+func sectionDateContract(rng *vh.Rng) {
+	sec := res.Section("datecontract", "spec-search",
+		"the hypothesis DateContract of token_roundtrip_truncate, on the real functions: for instants v (unix nanoseconds: 0, ±1, whole seconds, every multiple of 10 ms / 1 ms / 1 µs inside sampled seconds, random values over the whole int64 range that time.Unix(0,v) can print with a four-digit year, negative values) parseLqlDateTime(unquote(DateTime(v).String())) == v; non-trivial = every instant, distinct by value")
+	n := 20000
+	if args.Thorough {
+		n = 300000
+	}
+	vals := []int64{0, 1, -1, 999999999, 1000000000, -1000000000, 1546432495120000000, 1546432495500000000, 1546432495000000001, 1 << 62, -(1 << 62)}
+	for i := 0; i < n; i++ {
+		base := (int64(rng.U64()>>2) - (1 << 61)) / 1000000000 * 1000000000
+		switch i % 6 {
+		case 0:
+			vals = append(vals, base+int64(rng.Intn(100))*10000000)
+		case 1:
+			vals = append(vals, base+int64(rng.Intn(1000))*1000000)
+		case 2:
+			vals = append(vals, base+int64(rng.Intn(1000000))*1000)
+		case 3:
+			vals = append(vals, base)
+		default:
+			vals = append(vals, int64(rng.U64()>>1)-(1<<62))
+		}
+	}
+	for _, v := range vals {
+		dt := lql.DateTime(v)
+		txt, err := strconv.Unquote(dt.String())
+		got := int64(0)
+		if err == nil {
+			var tm time.Time
+			if tm, err = lql.VerifC12ParseDateTime(txt); err == nil {
+				got = tm.UnixNano()
+			}
+		}
+		res.Eval(sec, fmt.Sprint(v))
+		frac := v % 1000000000
+		if frac < 0 {
+			frac += 1000000000
+		}
+		switch {
+		case frac == 0:
+			res.Dist(sec, "whole second")
+		case frac%10000000 == 0:
+			res.Dist(sec, "multiple of 10 ms")
+		case frac%1000000 == 0:
+			res.Dist(sec, "multiple of 1 ms")
+		default:
+			res.Dist(sec, "finer")
+		}
+		if err != nil || got != v {
+			fid := ""
+			if dateLayout == "" && frac != 0 && frac%10000000 == 0 && txt == time.Unix(0, v).String() {
+				fid = "F12d"
+			}
+			res.SpecFail(vh.SpecFailure{Section: "datecontract", Kind: "meaning-changed", Input: map[string]interface{}{"text": fmt.Sprintf("TRUNCATE BEFORE \"%d\"", v)},
+				Impl: fmt.Sprintf("DateTime(%d).String() = %s is read back as %d (err %v)", v, dt.String(), got, err), Spec: fmt.Sprint(v), ImplEqModel: true, Finding: fid,
+				What: "the text DateTime.String() prints for an instant is not read back to that instant by parseLqlDateTime"})
+		}
+	}
+	res.Done(sec)
+}
+
+// ---------------------------------------------------------------------------------------------
 // pipes
 
 type pipeCase struct {
@@ -1071,6 +1160,11 @@ func loadGrammarLits() {
 		res.Note("driver gave no grammar literals: %v %v", err, out)
 		return
 	}
+	if fa, err := vh.Batch(args.Driver, []string{"facts"}); err == nil && len(fa) == 1 && strings.HasPrefix(fa[0], "ok layout=") {
+		dateLayout = string(vh.UnHx(strings.TrimPrefix(strings.Fields(fa[0])[1], "layout=")))
+	} else {
+		res.Note("driver gave no printer facts: %v %v", err, fa)
+	}
 	f := strings.Fields(out[0])[1:]
 	for i := 0; i+1 < len(f); {
 		name := f[i]
@@ -1099,6 +1193,7 @@ func replay(path string) {
 	if err := vh.ReadJSON(path, &rp); err != nil {
 		res.Fatal(args.Out, "replay: %v", err)
 	}
+	loadGrammarLits()
 	sec := res.Section("replay", "replay", "replay of one recorded input")
 	switch rp.Section {
 	case "pipes":
@@ -1147,6 +1242,7 @@ func main() {
 	sectionLexer(rng.Fork("lexer"))
 	sectionParse(rng.Fork("parse"))
 	sectionRoundtrip(rng.Fork("roundtrip"))
+	sectionDateContract(rng.Fork("datecontract"))
 	sectionPipes(rng.Fork("pipes"))
 	if pipeSrv != nil {
 		pipeSrv.Stop()
